@@ -85,3 +85,17 @@ package interp
 //@   after nearest-vendor-or-none-below-gopath-src: (isDirAt(filesystem, pathJoin2(parent, vendor)) && parent == upN(rootPath, pathDepth(rootPath) - pathDepth(parent)) && forall(k, 1, pathDepth(rootPath) - pathDepth(parent), noVendorAt(filesystem, rootPath, k)) && vendored == strings.TrimPrefix(strings.TrimPrefix(parent, prefix), "/")) || (vendored == "" && forall(k, 1, pathDepth(rootPath) - pathDepth(prefix), noVendorAt(filesystem, rootPath, k)))
 //@   ensures [local:vendored] found-is-returned: vendored != "" ==> r == vendored && err == nil
 //@   canary [local:vendored] err == nil ==> vendored == ""
+
+// Collection of the init functions (cfg.go, pre-order case funcDecl): exactly the functions named init
+// that have no receiver are appended, in the order the walk meets them (source order); a METHOD named
+// init is an ordinary method.  Layout of a funcDecl node (ast.go): child[0] receiver list, child[1] name,
+// child[2] signature.
+//@ lit Interpreter.cfg if:"init" () ()
+//@   props C15
+//@   opt safety = off
+//@   opt opaque-calls = *
+//@   opt opaque-havoc = none
+//@   requires [assume] n != nil && len(n.child) >= 3 && n.child[0] != nil && n.child[1] != nil
+//@   ensures only-receiverless-init-functions-are-collected: len(initNodes) != old(len(initNodes)) ==> n.child[1].ident == "init" && len(n.child[0].child) == 0
+//@   ensures init-function-is-appended-last: n.child[1].ident == "init" && len(n.child[0].child) == 0 ==> len(initNodes) == old(len(initNodes)) + 1 && initNodes[len(initNodes)-1] == n && forall(k, 0, old(len(initNodes)), initNodes[k] == old(initNodes[k]))
+//@   canary len(initNodes) == old(len(initNodes))
